@@ -65,10 +65,14 @@ func gPow2(name string, maxLog int) int {
 	return a
 }
 
-// Verif_C09_Pages: cfg%2: 0 TLSF, 1 linear; cfg/2%3: granularity 16 (handler disabled, round-up path), 1024, 4096.
+// Verif_C09_Pages: cfg%2: 0 TLSF, 1 linear; cfg/2%3: granularity 16 (handler disabled, round-up path), 1024, 4096;
+// cfg/6%2 = 1: page-boundary recipe (three buffers tile the block, one is freed) followed by one operation.
 func Verif_C09_Pages(cfg int) {
 	linearAlg := cfg%2 == 1
 	G := []int{16, 1024, 4096}[(cfg/2)%3]
+	if (cfg/6)%2 == 1 && G == 1024 {
+		G = 512 // the recipe uses the smallest granularity that enables the handler: fewer TLSF free lists to fork over
+	}
 	B := 2 * G
 	if G == 16 {
 		B = 256
@@ -84,12 +88,48 @@ func Verif_C09_Pages(cfg int) {
 	}
 	m.Init(B)
 	var live []gAlloc
+	recipe := (cfg/6)%2 == 1
+	if recipe {
+		// page-boundary recipe: three buffers tile the block (symbolic sizes), one of them is freed, so that the
+		// free range may start exactly on a page boundary with a conflicting allocation later in the same page
+		used := 0
+		for i := 0; i < 3; i++ {
+			size := B - used // the third buffer takes the rest of the block
+			if i < 2 {
+				size = verifNondetInt("rsize")
+				verifAssume(size >= 1)
+				verifAssume(size <= B-used-(2-i))
+				if i == 1 {
+					verifAssume(size <= 256) // the buffer that is freed below: keeps the number of TLSF free lists to fork over small
+				}
+			}
+			used += size
+			ok, req, err := m.CreateAllocationRequest(size, 1, false, uint32(SuballocationBuffer), 0, int(^uint(0)>>1))
+			verifAssume(err == nil)
+			verifAssume(ok)
+			ud := new(int)
+			verifAssume(m.Alloc(req, uint32(SuballocationBuffer), ud) == nil)
+			live = append(live, gAlloc{req.BlockAllocationHandle, uint32(SuballocationBuffer), size, 1, ud})
+		}
+		i := 1 // the middle buffer
+		verifAssume(m.Free(live[i].h) == nil)
+		nl := make([]gAlloc, 0, 2)
+		for j := range live {
+			if j != i {
+				nl = append(nl, live[j])
+			}
+		}
+		live = nl
+	}
 	K := 3
 	if verifTier() == 1 {
 		K = 4
 	}
 	if G > 16 || linearAlg {
 		K-- // the large-granularity and linear configurations are an order of magnitude more expensive per step
+	}
+	if recipe {
+		K = 1
 	}
 	for step := 0; step < K; step++ {
 		nops := 1
@@ -116,7 +156,10 @@ func Verif_C09_Pages(cfg int) {
 			size := verifNondetInt("size")
 			verifAssume(size >= 1)
 			verifAssume(size <= B+G)
-			align := gPow2("alignLog", int(sh)+1)
+			align := 1
+			if !recipe {
+				align = gPow2("alignLog", int(sh)+1)
+			}
 			// quick: one representative per conflict class (unknown, linear, optimal); thorough: all five kinds
 			kinds := []uint32{uint32(SuballocationUnknown), uint32(SuballocationBuffer), uint32(SuballocationImageOptimal)}
 			if verifTier() == 1 {
